@@ -129,8 +129,10 @@ def run_kind(family, kind, timeout_ms=None, config=None):
                 out["obligations"].append({"name": f"{family.name}/{kind}/path={path}/engine", "status": "undecided",
                                            "reason": f"engine error: {tb}", "time": 0.0, "kind": "engine"})
                 continue
-            ob = core.Obligation(f"no-exception[{type(pr.exc).__name__}]", pr.ctx.hyps, pr.ctx.schemas, pr.ctx.pool,
-                                 z3.BoolVal(False), kind="noexc", derivers=pr.ctx.derivers,
+            # after a late lemma has derived False (as an obligation of its own) the path is closed: no need to instantiate every schema again
+            closed = any(z3.is_false(h) for h in pr.ctx.hyps)
+            ob = core.Obligation(f"no-exception[{type(pr.exc).__name__}]", pr.ctx.hyps, [] if closed else pr.ctx.schemas, [] if closed else pr.ctx.pool,
+                                 z3.BoolVal(False), kind="noexc", derivers=() if closed else pr.ctx.derivers,
                                  info={"exception": tb, "at": f"{os.path.basename(where.filename)}:{where.lineno}"})
             obs.append(ob)
         # vacuity guard: the hypotheses under which this path's obligations were proved must be satisfiable
